@@ -240,16 +240,39 @@ def check_config(rep, prog):
                         "(w*h may wrap or exceed what Buf2::new_from/Inner::new can index)", config=cfg)
 
 
-DROPPING = ("::skip_while", "::skip", "::filter", "::step_by", "::nth", "::take_while", "::last", "::rev", "::filter_map", "::dedup")
+DROPPING = ("::skip_while", "::skip", "::filter", "::step_by", "::nth", "::take_while", "::last", "::rev", "::filter_map", "::dedup",
+            "::next_if", "::next_if_eq", "::next", "::next_chunk", "::advance_by", "::find", "::position", "::any", "::all", "::skip_while")
+# wrappers that hand the same byte sequence on, and readers that consume nothing
+VERBATIM = ("::peekable", "::by_ref", "::into_iter", "::fuse", "::iter_mut")
+NONCONSUMING = ("::peek", "::size_hint")
+# consumers confirmed by reading: they see every remaining byte in order
+CONSUMERS = ("Header::parse", "::zip", "::map", "::flat_map", "::parse_num", "::take", "::collect", "::enumerate", "::chain", "::inspect", "::for_each", "::fold", "::try_fold", "::scan")
 
 
 def raw_bytes_rule(rep, prog):
     """B-raw: between the header and the pixel decoders the input byte stream is consumed
-    verbatim — no item-dropping adaptor is applied to the raw iterator in parse_pnm
+    verbatim — every use of the raw iterator in parse_pnm (directly, through a verbatim wrapper
+    such as by_ref()/peekable(), or through the `it` captured by a decoder closure) is a consumer
+    that sees every remaining byte in order; nothing drops, skips or conditionally eats a byte
     (binary pixel data may contain any byte value, including whitespace and '#')."""
     cfg = prog.config
     pp = prog.body(ROOTS[0])
     n = 0
+
+    def is_raw(recv, b):
+        for _ in range(8):
+            if recv == ("upvar", "it"):
+                return True
+            if recv[0] != "call":
+                return False
+            decl = recv[1].split(" => ")[0]
+            if decl.endswith("IntoIterator::into_iter") and T.strip(recv[2][0], refs=True) == ("param", 1) and b is pp:
+                return True
+            if any(decl.endswith(v) for v in VERBATIM) and recv[2]:
+                recv = T.strip(recv[2][0], sites=True, refs=True)
+                continue
+            return False
+        return False
     for b in prog.family(pp.path):
         sl = T.Slicer(b)
         for bi, t in b.calls():
@@ -258,17 +281,23 @@ def raw_bytes_rule(rep, prog):
             if not t["args"]:
                 continue
             recv = T.strip(sl.operand(t["args"][0]), sites=True, refs=True)
-            raw = (recv[0] == "call" and recv[1].split(" => ")[0].endswith("IntoIterator::into_iter") and T.strip(recv[2][0], refs=True) == ("param", 1) and b is pp) \
-                or recv == ("upvar", "it")
-            if not raw:
+            if not is_raw(recv, b):
+                continue
+            short = name.rsplit("::", 1)[-1]
+            if any(name.endswith(v) for v in VERBATIM) or any(name.endswith(v) for v in NONCONSUMING):
+                rep.inst("C13.B-raw", "%s wraps/reads the raw input iterator at %s without consuming" % (short, b.where(bi, None)), config=cfg)
                 continue
             n += 1
             drop = any(name.endswith(d) for d in DROPPING)
-            rep.inst("C13.B-raw", "%s applied to the raw input iterator at %s: %s" % (name.rsplit("::", 1)[-1], b.where(bi, None), "DROPS ITEMS" if drop else "verbatim"), config=cfg)
+            known = any(name.endswith(d) for d in CONSUMERS)
+            rep.inst("C13.B-raw", "%s applied to the raw input iterator at %s: %s" % (short, b.where(bi, None), "DROPS ITEMS" if drop else "verbatim" if known else "UNRECOGNISED"), config=cfg)
             if drop:
-                rep.violate("C13.B-raw", "B-raw|%s" % name.rsplit("::", 1)[-1], b.where(bi, None),
+                rep.violate("C13.B-raw", "B-raw|%s" % short, b.where(bi, None),
                             "the raw byte stream is passed through `%s` between the header and the pixel data: binary samples equal to the dropped values are lost"
-                            % name.rsplit("::", 1)[-1], config=cfg)
+                            % short, config=cfg)
+            elif not known:
+                raise common.Infra("C13.B-raw: `%s` consumes the raw byte stream at %s and is in neither the verbatim-consumer nor the dropping table; classify it"
+                                   % (name, b.where(bi, None)))
     rep.floor("C13.B-raw.%s" % cfg, n, 4, "uses of the raw input iterator in parse_pnm")
 
 
